@@ -706,6 +706,7 @@ class World:
         old = self.eps.get('s')
         if old is not None:
             self.old_servers.append(old)
+            self.lease_sub = None       # the lease publisher is subscribed again by the new server endpoint (after its SETUP)
             for cell in self._ep_cells.get('s', []):
                 cell['ep'] = 'z'          # events of a replaced server endpoint are no longer recorded
             self._ep_cells['s'] = []
@@ -843,8 +844,8 @@ class World:
 
     def publish_lease(self, count, ttl_ms, ep='s'):
         from rsocket.lease import DefinedLease
-        self.rec.log(ep, 'app_lease', n=count, x=ttl_ms)
         if self.lease_sub is not None:
+            self.rec.log(ep, 'app_lease', n=count, x=ttl_ms)
             self.lease_sub.on_next(DefinedLease(maximum_request_count=count, maximum_lease_time=timedelta(milliseconds=ttl_ms)))
             return True
         return False
